@@ -206,3 +206,21 @@ package v2
 //@   modifies fw.buffer.entries, fw.buffer.currentSize, fw.blockCount, fw.entryCount, all(fw.header)
 //@   ensures[buffer_emptied_even_on_write_error] len(fw.buffer.entries) == 0 && (old(len(fw.buffer.entries)) > 0 ==> fw.buffer.currentSize == 0)
 //@   ensures[flushed] err == nil ==> len(fw.buffer.entries) == 0 && (old(len(fw.buffer.entries)) > 0 ==> fw.buffer.currentSize == 0)
+
+// ---------------------------------------------------------------------------------------
+// Reader side: one replay step of LoadIndex (the callback handed to ReadAllEntries).
+// The index after the step is apply(index, entry): Delete removes the key, Insert/Update bind
+// the key to a private copy of the payload, anything else leaves the index unchanged; all other
+// keys keep their binding. Folding this step over the entries in file order gives
+// last-writer-wins (the induction over the history is the meta-level part of the argument).
+//@ func (*FileReader).LoadIndex$1(entry) (cont)
+//@   property C01
+//@   nopanic
+//@   requires[index_made] index != nil
+//@   modifies mapof(index), deref(swampName_ptr)
+//@   ensures[continues] cont
+//@   ensures[delete_removes_key] entry.Operation == OpDelete ==> !has(index, entry.Key) && mapsameexcept(index, entry.Key)
+//@   ensures[upsert_binds_payload] (entry.Operation == OpInsert || entry.Operation == OpUpdate) ==> has(index, entry.Key) && len(index[entry.Key]) == len(entry.Data) && mapsameexcept(index, entry.Key)
+//@   ensures[upsert_copies_bytes] (entry.Operation == OpInsert || entry.Operation == OpUpdate) ==> forall i in 0..len(entry.Data): index[entry.Key][i] == entry.Data[i]
+//@   ensures[copy_is_private] (entry.Operation == OpInsert || entry.Operation == OpUpdate) && len(entry.Data) > 0 ==> fresh(index[entry.Key])
+//@   ensures[other_operations_ignored] entry.Operation != OpDelete && entry.Operation != OpInsert && entry.Operation != OpUpdate ==> mapsame(index)
